@@ -213,7 +213,7 @@ def make_instance(rng, qual, cls):
             conds = []
             for cr in keys[: rng.randint(1, 3)]:
                 if name == "Filter":
-                    conds.append([cr, rng.choice(["gt2", "le3", "ne1", "pos"])])
+                    conds.append([cr, rng.choice(sorted(T.PALETTE))])
                 elif name in ("FilterIn", "FilterNotIn"):
                     conds.append([cr, rng.sample([1.0, 2.0, 3.0, 4.0, 5.0], rng.randint(1, 3))])
                 else:
